@@ -748,6 +748,8 @@ class Flwdir(object):
         # in case of manning either rivslp or zs&rivdst are optional
         if rivslp is None and (zs is None or rivdst is None):
             raise ValueError('"rivslp" is required if "zs" or "rivdst" is not provided.')
+        if method == "gvf" and (zs is None or rivdst is None):
+            raise ValueError('"zs" and "rivdst" are required for method "gvf".')
         _opt = method == "manning" and rivslp is not None
         rivslp = self._check_data(rivslp, "rivslp", optional=True)
         rivdst = self._check_data(rivdst, "rivdst", optional=_opt)
